@@ -634,13 +634,25 @@ package moss
 //@   modifies *
 //@   ensures @unpublished r1 != nil || !r0 ==> s.footer == old(s.footer)
 
+// Reference accounting of a persistence round, path by path (C15, C02): the
+// footer of the round starts with one count; when writing it fails that count
+// is given back; on success the store holds one count and the caller the
+// other.  On the paths that write nothing the caller gets a counted hand-out
+// of the current footer (never the bare pointer).
 //@ func (s *Store) persist(higher Snapshot, persistOptions StorePersistOptions) (Snapshot, error)
-//@   props C18 C06 C04 C05 C07 C11 C12 C15
+//@   props C18 C06 C04 C05 C07 C11 C12 C15 C02
 //@   attr obligations call-requires ensures
-//@   attr only-labels unpublished notReadOnly readOnlyFlag modeLinked
+//@   attr only-labels unpublished notReadOnly readOnlyFlag modeLinked handout released twoCounts installed loaded
 //@   requires @modeLinked s != nil && s.options != nil && readOnlyMode() == s.options.CollectionOptions.ReadOnly
 //@   modifies *
 //@   ensures @unpublished r1 != nil ==> s.footer == old(s.footer)
+//@   return 2: @handout r0 == ifaceOf(handedOut)
+//@   return 3: @handout r0 == ifaceOf(handedOut)
+//@   return 5: @handout r0 == ifaceOf(handedOut)
+//@   return 9: @released local(footer).refs == 0
+//@   return 9: @loaded lastLoaded == local(footer)
+//@   return 10: @twoCounts local(footer).refs == 2
+//@   return 10: @installed s.footer == local(footer) && r0 == ifaceOf(local(footer))
 
 //@ func (s *Store) Persist(higher Snapshot, persistOptions StorePersistOptions) (Snapshot, error)
 //@   props C18
@@ -770,12 +782,15 @@ package moss
 
 // Tombstones may only be dropped when nothing at all lies below the merged
 // levels: no older level, no base stack, no lower level.
+// Ghost: some merge since the flag was last cleared was asked to keep deletion entries.
+//@ ghost var keptTombstones bool
 //@ func (ss *segmentStack) mergeInto(minSegmentLevel, maxSegmentHeight int, dest SegmentMutator, base *segmentStack, includeDeletions, optimizeTail bool, cancelCh chan struct{}) error
 //@   trusted the heap iterator (container/heap over segment cursors) and its use here are not under contract; see DESIGN.md (bounded stand-in for the iterator)
 //@   requires @levels ss != nil && 0 <= minSegmentLevel && minSegmentLevel <= maxSegmentHeight && maxSegmentHeight <= len(ss.a)
 //@   requires @dest typeIs(dest, "*segment") ==> ptrOf(dest, "*segment") != nil
 //@   requires @keepsTombstones includeDeletions || (minSegmentLevel == 0 && base == nil && ss.lowerLevelSnapshot == nil)
-//@   modifies fields(ptrOf(dest, "*segment")), elems(ptrOf(dest, "*segment").kvs), elems(ptrOf(dest, "*segment").buf), heaps(compactWriter), heaps(bufferedSectionWriter)
+//@   modifies fields(ptrOf(dest, "*segment")), elems(ptrOf(dest, "*segment").kvs), elems(ptrOf(dest, "*segment").buf), heaps(compactWriter), heaps(bufferedSectionWriter), keptTombstones
+//@   ensures @tombstoneFlag keptTombstones == (old(keptTombstones) || includeDeletions)
 //@   ensures result == nil && typeIs(dest, "*segment") ==> segOK(ptrOf(dest, "*segment")) && mergedSeg(ptrOf(dest, "*segment"), ss, minSegmentLevel, maxSegmentHeight, base)
 
 //@ func (ss *segmentStack) calcTargetTopLevel() int
@@ -866,13 +881,16 @@ package moss
 //@ func (s *Store) writeSegments(newSS, base *segmentStack, frefCompact *FileRef, fileCompact File, includeDeletes bool, syncAfterBytes int) (compactFooter *Footer, err error)
 //@   props C07 C11 C04 C05 C06
 //@   attr obligations ensures call-requires
-//@   attr only-labels incar oneSegment appendOnly freshFooter
+//@   attr only-labels incar oneSegment appendOnly freshFooter deletes
 //@   requires newSS != nil && treeOK(newSS) && StorePageSize > 0 && StorePageSize <= 1073741824
-//@   modifies s.totCompactionBeforeBytes
+//@   modifies s.totCompactionBeforeBytes, keptTombstones
+//@   ensures @deletes !includeDeletes && !old(keptTombstones) ==> !keptTombstones
 //@   ensures @incar err == nil ==> compactFooter != nil && compactFooter.incarNum == newSS.incarNum
 //@   ensures @oneSegment err == nil ==> len(compactFooter.SegmentLocs) == 1
 //@   ensures @freshFooter err == nil ==> fresh(compactFooter)
+//@   loop 1: modifies keptTombstones, compactFooter.ChildFooters
 //@   loop 1: invariant compactFooter != nil && fresh(compactFooter) && compactFooter.incarNum == newSS.incarNum && len(compactFooter.SegmentLocs) == 1
+//@   loop 1: invariant @deletes !includeDeletes && !old(keptTombstones) ==> !keptTombstones
 
 // ---- reverting to an earlier footer (C12, C11) ---------------------------------------------------------
 
@@ -883,8 +901,16 @@ package moss
 //@         rv.SegmentLocs[i].KvsBytes == f.SegmentLocs[i].KvsBytes && rv.SegmentLocs[i].BufOffset == f.SegmentLocs[i].BufOffset &&
 //@         rv.SegmentLocs[i].BufBytes == f.SegmentLocs[i].BufBytes && rv.SegmentLocs[i].mref == f.SegmentLocs[i].mref)
 
+// Every mapping named by the locations gains at least one count (exactly one
+// per location that names it); no count anywhere goes down.
 //@ func (slocs SegmentLocs) AddRef()
-//@   trusted reference counts of the mappings (C15); the locations themselves are untouched
+//@   props C15 C02 C12
+//@   modifies heap(mmapRef.refs)
+//@   ensures @counted forall i int :: 0 <= i && i < len(slocs) && slocs[i].mref != nil ==> slocs[i].mref.refs > old(slocs[i].mref.refs)
+//@   ensures @mono forall r *mmapRef :: r.refs >= old(r.refs)
+//@   loop 1: modifies heap(mmapRef.refs)
+//@   loop 1: invariant forall r *mmapRef :: r.refs >= old(r.refs)
+//@   loop 1: invariant forall i int :: 0 <= i && i <= rangeindex && i < len(slocs) && slocs[i].mref != nil ==> slocs[i].mref.refs > old(slocs[i].mref.refs)
 
 //@ func (s *Store) revertToSnapshot(revertToFooter *Footer, options StorePersistOptions) (rv *Footer, err error)
 //@   props C12 C11
@@ -898,6 +924,9 @@ package moss
 //@   ensures @noOthers err == nil ==> (forall c string :: has(rv.ChildFooters, c) ==> has(revertToFooter.ChildFooters, c))
 //@   ensures @incar err == nil ==> rv.incarNum == revertToFooter.incarNum
 //@   ensures @stack err == nil ==> rv.ss == old(revertToFooter.ss) && rv.refs == 1
+//@   ensures @counted err == nil ==> (forall i int :: 0 <= i && i < len(revertToFooter.SegmentLocs) && revertToFooter.SegmentLocs[i].mref != nil ==>
+//@       revertToFooter.SegmentLocs[i].mref.refs > old(revertToFooter.SegmentLocs[i].mref.refs))
+//@   ensures @mono err == nil ==> (forall r *mmapRef :: r.refs >= old(r.refs))
 //@   loop 1: modifies footer.ChildFooters, heap(mmapRef.refs), heap(mmapRef.buf), heap(mmapRef.fref), heap(mmapRef.mm), heap(FileRef.refs), heap(FileRef.file), heap(FileRef.beforeCloseCallbacks), heap(FileRef.afterCloseCallbacks), ioFailed
 //@   loop 1: invariant forall g *Footer :: g.refs == old(g.refs) && g.SegmentLocs == old(g.SegmentLocs) && g.ChildFooters == old(g.ChildFooters) && g.ss == old(g.ss)
 //@   loop 1: invariant footer != nil && fresh(footer) && sameLocs(footer, revertToFooter) && footer.ss == old(revertToFooter.ss) && footer.refs == 1
@@ -905,6 +934,9 @@ package moss
 //@   loop 1: invariant forall c string :: visited(c) ==> has(footer.ChildFooters, c) && sameLocs(footer.ChildFooters[c], revertToFooter.ChildFooters[c])
 //@   loop 1: invariant forall c string :: has(footer.ChildFooters, c) ==> visited(c)
 //@   loop 1: invariant forall c string :: visited(c) ==> has(revertToFooter.ChildFooters, c)
+//@   loop 1: invariant @mono forall r *mmapRef :: r.refs >= old(r.refs)
+//@   loop 1: invariant @counted forall i int :: 0 <= i && i < len(revertToFooter.SegmentLocs) && revertToFooter.SegmentLocs[i].mref != nil ==>
+//@       revertToFooter.SegmentLocs[i].mref.refs > old(revertToFooter.SegmentLocs[i].mref.refs)
 
 // ---- walking back (C12) ----------------------------------------------------------------------------
 
@@ -1015,9 +1047,16 @@ package moss
 //@   ensures @count 0 <= n && n <= len(p) && (err == nil ==> n == len(p))
 //@   ensures @failed ioFailed == (old(ioFailed) || (err != nil && err != ioEOF))
 
+// Ghost: the footer whose segments were most recently mapped (each of its
+// locations then holds a count on its mapping; releasing a footer that was
+// never loaded would give back counts it does not own).
+//@ ghost var lastLoaded *Footer
 //@ func (f *Footer) loadSegments(options *StoreOptions, fref *FileRef) (err error)
 //@   trusted maps the segments named by the footer (C04/C15); assumed to fail only when a file operation fails
-//@   modifies ioFailed, fields(f)
+//@   modifies ioFailed, fields(f), lastLoaded, heap(FileRef.refs), heap(mmapRef.refs)
+//@   ensures @loaded err == nil ==> lastLoaded == f
+//@   ensures @notLoaded err != nil ==> lastLoaded == old(lastLoaded) && (forall r *FileRef :: r.refs == old(r.refs))
+//@   ensures @frefCounted fref != nil ==> fref.refs >= old(fref.refs)
 //@   ensures err != nil ==> ioFailed
 //@   ensures !old(ioFailed) && err == nil ==> !ioFailed
 //@   ensures @identity f.filePos == old(f.filePos) && f.fileName == old(f.fileName) && f.refs == old(f.refs) && len(f.SegmentLocs) == old(len(f.SegmentLocs))
@@ -1266,20 +1305,36 @@ package moss
 //@   modifies w.refCount, w.ss, w.closer
 //@   ensures @count w.refCount == old(w.refCount) - 1
 
+// Ghost: the footer most recently handed out with a count of its own.
+//@ ghost var handedOut *Footer
 //@ func (s *Store) snapshot() (*Footer, error)
 //@   props C15 C02
 //@   requires s != nil
-//@   modifies heap(Footer.refs)
+//@   modifies heap(Footer.refs), handedOut
 //@   ensures @ref r1 == nil && r0 == s.footer && (r0 != nil ==> r0.refs == old(r0.refs) + 1)
 //@   ensures @others forall g *Footer :: g != s.footer ==> g.refs == old(g.refs)
+//@   ensures @assume_handout handedOut == r0
 
 // Writing the segments of a round only appends to the file and to the new
 // footer's location lists (the segment writers themselves: C04).
+// A failed write of any segment, at any depth of the tree of child
+// collections, fails the round.
+//@ func SegmentPersister.Persist
+//@   modifies ioFailed, unsynced
+//@   ensures @failed ioFailed == (old(ioFailed) || r1 != nil)
+//@ func (s *Store) IsAborted() bool
+//@   trusted reads the abort channel
 //@ func (s *Store) persistSegments(ss *segmentStack, footer *Footer, file File, fref *FileRef) error
-//@   props C06
-//@   attr obligations call-requires
-//@   attr only-labels none
+//@   props C06 C20 C04
+//@   attr obligations call-requires ensures inv-entry inv-preserve
+//@   attr only-labels reported
+//@   requires ss != nil
 //@   modifies heap(Footer.SegmentLocs), ioFailed, unsynced
+//@   ensures @reported ioFailed && !old(ioFailed) ==> result != nil
+//@   loop 1: modifies heap(Footer.SegmentLocs), ioFailed, unsynced
+//@   loop 1: invariant @reported ioFailed ==> old(ioFailed)
+//@   loop 2: modifies heap(Footer.SegmentLocs), ioFailed, unsynced
+//@   loop 2: invariant @reported ioFailed ==> old(ioFailed)
 //@ func (ss *segmentStack) ensureFullySorted()
 //@   trusted deferred-sort ticket protocol abstracted: the segments under contract are sorted already
 
@@ -1423,6 +1478,9 @@ package moss
 //@   unlock 1: @handover atAcquire(m.stackDirtyBase) == nil && atAcquire(m.stackDirtyMid) != nil ==>
 //@       m.stackDirtyBase == atAcquire(m.stackDirtyMid) && m.stackDirtyMid == nil && signalled(m.stackDirtyBaseCond)
 //@   unlock 1: @noOverwrite atAcquire(m.stackDirtyBase) != nil ==> m.stackDirtyBase == atAcquire(m.stackDirtyBase) && m.stackDirtyMid == atAcquire(m.stackDirtyMid)
+//@   unlock 1: @lowerCounted atAcquire(m.stackDirtyBase) == nil && atAcquire(m.stackDirtyMid) != nil ==>
+//@       m.stackDirtyBase.lowerLevelSnapshot == m.lowerLevelSnapshot &&
+//@       (m.lowerLevelSnapshot != nil ==> m.lowerLevelSnapshot.refCount == atAcquire(m.lowerLevelSnapshot.refCount) + 1 - ite(atAcquire(atAcquire(m.stackDirtyMid).lowerLevelSnapshot) == m.lowerLevelSnapshot, 1, 0))
 //@   unlock 1: @nothingToHand atAcquire(m.stackDirtyBase) == nil && atAcquire(m.stackDirtyMid) == nil ==> m.stackDirtyBase == nil && m.stackDirtyMid == nil
 //@   unlock 1: @restKept m.stackDirtyTop == atAcquire(m.stackDirtyTop) && m.stackClean == atAcquire(m.stackClean) && m.lowerLevelSnapshot == atAcquire(m.lowerLevelSnapshot) && m.latestSnapshot == atAcquire(m.latestSnapshot)
 
